@@ -28,3 +28,4 @@ func vSliceOff(a []byte) int
 func vLocksHeld() int
 func vWithin(inner, outer []byte) bool
 func vMutexFree(mu *sync.Mutex) bool
+func vFmtArg(k int) uint64
